@@ -64,12 +64,27 @@ func c04config(c *Check, seed int64, cf c04cfg) {
 	rng := rand.New(rand.NewSource(seed))
 	env, err := NewEnv(EnvOpt{Masters: cf.masters, Replicas: cf.replicas,
 		Cfg:  ProxyCfg{Password: cf.password, DisableSlave: cf.disableSlave},
-		Topo: func(cl *Cluster) *Topo { return RandomTopo(cl, cf.masters, cf.replicas, cf.ranges, rng.Intn) }})
+		Topo: func(cl *Cluster) *Topo {
+			t := RandomTopo(cl, cf.masters, cf.replicas, cf.ranges, rng.Intn)
+			if cf.replicas > 0 && cf.masters > 2 {
+				// replica counts differ per master: the second master has none
+				var keep []*TNode
+				for _, tn := range t.Nodes {
+					if !tn.Master && tn.MasterID == t.Nodes[1].ID {
+						continue
+					}
+					keep = append(keep, tn)
+				}
+				t.Nodes = keep
+			}
+			t.Order = rng.Perm(len(t.Nodes))
+			return t
+		}})
 	must(err, "start env "+cf.name)
 	defer env.Close()
 	env.Cl.SetHandler(func(r *BReq) Action { return Action{Reply: ValueReply(r)} })
 
-	c04workload(c, rng, env, cf, "initial")
+	c04workload(c, rng, env, cf, "initial", nil)
 	c04judge(c, env, cf, env.T, "initial")
 	if cf.swap && cf.replicas > 0 && !cf.disableSlave {
 		// live failover: master 0 and its first replica swap roles
@@ -130,12 +145,80 @@ func c04config(c *Check, seed int64, cf c04cfg) {
 		}
 		time.Sleep(300 * time.Millisecond)
 		env.Cl.ResetLog()
-		c04workload(c, rng, env, cf, "after-swap")
+		c04workload(c, rng, env, cf, "after-swap", nil)
 		c04judge(c, env, cf, nt, "after-swap")
+		if !cf.disableSlave {
+			c04failedMaster(c, rng, env, cf, nt)
+		}
+		return
+	}
+	if !cf.disableSlave && cf.replicas > 0 {
+		c04failedMaster(c, rng, env, cf, env.T)
 	}
 }
 
-func c04workload(c *Check, rng *rand.Rand, env *Env, cf c04cfg, phase string) {
+// c04failedMaster: a master is flagged as failed while its replica is still listed
+// as its slave (not yet promoted): nothing may be routed to either of them.
+func c04failedMaster(c *Check, rng *rand.Rand, env *Env, cf c04cfg, cur *Topo) {
+	var victim *TNode
+	for _, tn := range cur.Nodes {
+		if tn.Master && len(cur.Replicas(tn.ID)) > 0 {
+			victim = tn
+		}
+	}
+	nmasters := 0
+	for _, tn := range cur.Nodes {
+		if tn.Master {
+			nmasters++
+		}
+	}
+	if victim == nil || nmasters < 4 {
+		return
+	}
+	nt := &Topo{Order: cur.Order}
+	jt := &Topo{} // what the judge considers usable
+	for _, tn := range cur.Nodes {
+		cp := *tn
+		if tn == victim {
+			cp.Flags = "fail"
+		}
+		nt.Nodes = append(nt.Nodes, &cp)
+		if tn != victim && !(!tn.Master && tn.MasterID == victim.ID) {
+			jt.Nodes = append(jt.Nodes, &cp)
+		}
+	}
+	nt.Install(env.Cl)
+	slot := victim.Slots[0][0]
+	adopted := false
+	for dl := time.Now().Add(15 * time.Second); time.Now().Before(dl) && !adopted; {
+		pc, err := env.Dial()
+		must(err, "dial")
+		pc.Send(Req("SET", Key(slot, newToken("fm")), "v"))
+		if pc.WaitReplies(1, 2*time.Second) && pc.Snapshot().Replies[0].Val.Kind == '-' {
+			adopted = true
+		}
+		pc.Close()
+		time.Sleep(200 * time.Millisecond)
+	}
+	if !adopted {
+		c.Count("failed_master_not_adopted_within_15s(C14 subject)", 1)
+		return
+	}
+	time.Sleep(300 * time.Millisecond)
+	env.Cl.ResetLog()
+	inVictim := func(s int) bool {
+		for _, r := range victim.Slots {
+			if s >= r[0] && s <= r[1] {
+				return true
+			}
+		}
+		return false
+	}
+	c04workload(c, rng, env, cf, "master-failed", inVictim)
+	c04judge(c, env, cf, jt, "master-failed")
+}
+
+func c04workload(c *Check, rng *rand.Rand, env *Env, cf c04cfg, phase string, skip func(int) bool) {
 	// build the request list: two commands per slot + every command on 8 slots
 	type item struct{ raw []byte }
 	var items [][]byte
@@ -146,6 +229,9 @@ func c04workload(c *Check, rng *rand.Rand, env *Env, cf c04cfg, phase string) {
 		}
 	}
 	mk := func(name string, slot int) []byte {
+		for skip != nil && skip(slot) {
+			slot = rng.Intn(16384)
+		}
 		var key []byte
 		if rng.Intn(8) == 0 {
 			// brace-hostile shapes (the slot is whatever the reference says)
@@ -242,7 +328,18 @@ func c04workload(c *Check, rng *rand.Rand, env *Env, cf c04cfg, phase string) {
 				for _, r := range part[i:j] {
 					b = append(b, r...)
 				}
-				cl.Send(b)
+				if (i/100)%4 == 3 {
+					// cut into small pieces: requests (and keys) span several reads
+					var sizes []int
+					for rem, k := len(b), 0; rem > 0; k++ {
+						sz := 1 + (k*7+i)%23
+						sizes = append(sizes, sz)
+						rem -= sz
+					}
+					cl.SendChunks(b, sizes, 0)
+				} else {
+					cl.Send(b)
+				}
 				sent += j - i
 				if !cl.WaitReplies(sent, 20*time.Second) {
 					c.Violate(Violation{Class: "no-reply-during-routing-workload", Shape: phase, Detail: fmt.Sprintf("only %d of %d replies (proxy alive=%v)", cl.NReplies(), sent, env.P.Alive()),
